@@ -25,7 +25,7 @@
     frame is fused with the dispatch on the kind.
   * `publish()` hands over ONE pending entry per step (the Go loop is not
     atomic, each `StoreOrSwap` is).  Go iterates the map in arbitrary order:
-    `Reach` (Proofs/Registry.lean) has an extra transition that permutes the
+    `Reach` (end of this file) has an extra transition that permutes the
     pending list of a publishing frame, so every order is covered.
   * errors: a `bad` type makes the whole top-level call fail.  Go unwinds the
     stack returning `err` at every level without touching shared state or
@@ -35,6 +35,9 @@
   * `use`: after a successful top-level call the goroutine walks the codec it
     got (depth-limited breadth-first walk, one node read per step).  Reading an
     incomplete struct node sets `fault`.
+  * bookkeeping only: `ret` frames and `results` carry the type of the call,
+    `cur` is the type of the top-level call in progress (used to state that
+    results have the shape of the requested type).
   * `stepThreadOld`: the protocol before the repair — an overlay's
     `StoreOrSwap` writes straight through to the shared registry.
 
@@ -125,8 +128,8 @@ inductive Frame where
   | structP (ty node : Nat) (pending : Reg)
   /-- codec `c` built: about to `registry.StoreOrSwap(ty, c)` -/
   | store (ty c : Nat)
-  /-- returning `c` to the caller -/
-  | ret (c : Nat)
+  /-- returning codec `c` for type `ty` to the caller -/
+  | ret (ty c : Nat)
 deriving Repr, DecidableEq
 
 /-- `registry.Load(ty)` through the overlays of the enclosing frames
@@ -167,9 +170,12 @@ structure Thread where
   stack : List Frame
   /-- top-level calls not yet started (type ids) -/
   requests : List Nat
-  /-- outcomes of the finished top-level calls, most recent first;
-      `none` = the call returned an error -/
-  results : List (Option Nat)
+  /-- the type of the top-level call in progress (meaningful while the stack
+      is not empty) -/
+  cur : Nat
+  /-- (type, outcome) of the finished top-level calls, most recent first;
+      outcome `none` = the call returned an error -/
+  results : List (Nat × Option Nat)
   /-- work list of the walk over the last returned codec: (address, depth left) -/
   useQ : List (Nat × Nat)
   /-- the walk has read an incomplete struct node -/
@@ -184,7 +190,7 @@ structure State where
   heap : Heap
   threads : Nat → Thread
 
-def Thread.idle (reqs : List Nat) : Thread := ⟨[], reqs, [], [], false⟩
+def Thread.idle (reqs : List Nat) : Thread := ⟨[], reqs, 0, [], [], false⟩
 
 /-- empty registry and heap; goroutine `i` will make the top-level calls
 `requests[i]` in order (goroutines beyond the list have nothing to do). -/
@@ -212,13 +218,13 @@ def stepCore (old : Bool) (g : Nat → TNode) (depth : Nat) (reg : Reg) (heap : 
     | [] =>
       match t.requests with
       | [] => none
-      | r :: rs => some (reg, heap, { t with stack := [.call r], requests := rs })
+      | r :: rs => some (reg, heap, { t with stack := [.call r], requests := rs, cur := r })
   | top :: below =>
     match top with
     | .call ty =>
       -- registry.Load through the view
       match viewLoad below reg ty with
-      | some c => some (reg, heap, { t with stack := .ret c :: below })
+      | some c => some (reg, heap, { t with stack := .ret ty c :: below })
       | none => some (reg, heap, { t with stack := .miss ty :: below })
     | .miss ty =>
       match g ty with
@@ -233,7 +239,7 @@ def stepCore (old : Bool) (g : Nat → TNode) (depth : Nat) (reg : Reg) (heap : 
               { t with stack := .structB ty heap.length [] fs :: below })
       | .bad =>
         -- error: unwinds the whole top-level call, nothing is published
-        some (reg, heap, { t with stack := [], results := none :: t.results })
+        some (reg, heap, { t with stack := [], results := (t.cur, none) :: t.results })
     | .structB ty node pend todo =>
       match todo with
       | f :: todo' =>
@@ -251,11 +257,11 @@ def stepCore (old : Bool) (g : Nat → TNode) (depth : Nat) (reg : Reg) (heap : 
     | .store ty c =>
       -- the final registry.StoreOrSwap(typ, tag, c)
       let r := vstore below reg ty c
-      some (r.2.1, heap, { t with stack := .ret r.2.2 :: r.1 })
-    | .ret c =>
+      some (r.2.1, heap, { t with stack := .ret ty r.2.2 :: r.1 })
+    | .ret _ c =>
       match below with
       | [] =>
-        some (reg, heap, { t with stack := [], results := some c :: t.results,
+        some (reg, heap, { t with stack := [], results := (t.cur, some c) :: t.results,
                                   useQ := [(c, depth)] })
       | parent :: below' =>
         match parent with
@@ -295,10 +301,63 @@ def runScheduleOld (s : State) (sched : List Nat) : Option State := runWith step
 
 /-- observable summary of a state for the first `n` goroutines (for examples). -/
 def State.summary (s : State) (n : Nat) :
-    Reg × Heap × List (List (Option Nat) × Bool × Bool) :=
+    Reg × Heap × List (List (Nat × Option Nat) × Bool × Bool) :=
   (s.registry, s.heap,
    (List.range n).map fun i =>
      ((s.threads i).results, (s.threads i).fault,
       (s.threads i).stack.isEmpty && (s.threads i).useQ.isEmpty && (s.threads i).requests.isEmpty))
+
+/-- Go iterates the `pending` map in arbitrary order: a publishing frame may
+have its remaining pending entries permuted at any time (not a step of the
+executable model, but a transition of `Reach`). -/
+inductive Reorder (s : State) (i : Nat) : State → Prop where
+  | mk {ty node : Nat} {pend pend' : Reg} {below : List Frame} :
+    (s.threads i).stack = .structP ty node pend :: below → pend'.Perm pend →
+    Reorder s i (s.upd i s.registry s.heap
+      { s.threads i with stack := .structP ty node pend' :: below })
+
+/-- states reachable from `s0` by any interleaving of the goroutines' atomic
+steps (repaired protocol), with any publication order. -/
+inductive Reach (s0 : State) : State → Prop where
+  | refl : Reach s0 s0
+  | step {s s' : State} {i : Nat} : Reach s0 s → stepThread s i = some s' → Reach s0 s'
+  | reorder {s s' : State} {i : Nat} : Reach s0 s → Reorder s i s' → Reach s0 s'
+
+/-- finite unfoldings of codecs and of types, for comparing results. -/
+inductive Tree where
+  | cut
+  | basic
+  | ptr (t : Tree)
+  | slice (t : Tree)
+  | map (k v : Tree)
+  | struct (ty : Nat) (fields : List Tree)
+  | unfinished (ty : Nat)
+  | bad
+deriving Repr
+
+/-- the codec at address `c`, unfolded to depth `n`. -/
+def unfoldC (h : Heap) : Nat → Nat → Tree
+  | 0, _ => .cut
+  | n + 1, c =>
+    match get h c with
+    | .basicC => .basic
+    | .ptrC t => .ptr (unfoldC h n t)
+    | .sliceC e => .slice (unfoldC h n e)
+    | .mapC k v => .map (unfoldC h n k) (unfoldC h n v)
+    | .structC ty fs true => .struct ty (fs.map (unfoldC h n))
+    | .structC ty _ false => .unfinished ty
+
+/-- the type `ty` of the graph, unfolded to depth `n`: the codec tree that
+`CodecForType(ty)` is meant to produce. -/
+def unfoldT (g : Nat → TNode) : Nat → Nat → Tree
+  | 0, _ => .cut
+  | n + 1, ty =>
+    match g ty with
+    | .basic => .basic
+    | .ptr e => .ptr (unfoldT g n e)
+    | .slice e => .slice (unfoldT g n e)
+    | .map k v => .map (unfoldT g n k) (unfoldT g n v)
+    | .struct fs => .struct ty (fs.map (unfoldT g n))
+    | .bad => .bad
 
 end Registry
